@@ -144,10 +144,18 @@ func cmdCheck(args []string) int {
 		for _, s := range db.Funcs {
 			before[s] = true
 		}
+		for _, s := range db.Verify {
+			before[s] = true
+		}
 		if err := parseSpecText(db, string(b), f, "//@", false); err != nil {
 			return fail(err.Error())
 		}
 		for _, s := range db.Funcs {
+			if !before[s] {
+				fileOf[s] = f
+			}
+		}
+		for _, s := range db.Verify {
 			if !before[s] {
 				fileOf[s] = f
 			}
@@ -157,8 +165,15 @@ func cmdCheck(args []string) int {
 	var specs []*FuncSpec
 	seen := map[*FuncSpec]bool{}
 	dirs := map[string]bool{}
-	for _, k := range sortedKeys(db.Funcs) {
-		s := db.Funcs[k]
+	allSpecs := map[string]*FuncSpec{}
+	for k, s := range db.Funcs {
+		allSpecs[k] = s
+	}
+	for k, s := range db.Verify {
+		allSpecs["verify:"+k] = s
+	}
+	for _, k := range sortedKeys(allSpecs) {
+		s := allSpecs[k]
 		if s.Assumed || seen[s] || !specMentions(s, *prop) {
 			continue
 		}
